@@ -17,7 +17,8 @@ EXPLANATION = (
     "(d) the FSE states and extra bits are read in RFC order in both sibling decode loops (init LL,OF,ML; extra bits "
     "OF,ML,LL most-significant first; update LL,ML,OF, skipped after the last sequence); (e) the repeat-offset case "
     "tree equals the RFC table; 4-stream jump table is three cumulative LE u16. "
-    "Not decided: output equality over all frames (runtime values).")
+    "(f) a sequence loop that never reads an RLE slot is entered only when that slot of the persistent scratch state is "
+    "known None (Repeat_Mode after RLE_Mode keeps the symbol). Not decided: output equality over all frames (runtime values).")
 ASSUMPTIONS = ["spec/rfc8878.json is a faithful transcription of RFC 8878",
                "FSE/Huffman table construction arithmetic is not analysed here (see C12/C13)"]
 
@@ -35,6 +36,15 @@ def _renamed(ctx, start, keep):
             o.rule = "C01." + o.rule[4:]
         new.append(o)
     ctx.obs[start:] = new
+
+
+# necessary conditions that live in neighbouring properties' rules (reported here as C01.<family>...): the decoder's
+# FSE tables and constants, its Huffman weight parsing / table validity, and the output window matches are copied in
+INCLUDES = [
+    ("c12", "C01.fse", {"keys": ("decoder::", "reader::", "ACC_LOG_OFFSET", "spread-step")}, 8),
+    ("c13", "C01.huffman", {"keys": ("reader::", "build_table_from_weights::", "build_decoder::", "MAX_MAX_NUM_BITS")}, 15),
+    ("c04", "C01.window", None, 60),
+]
 
 
 def run(ctx):
